@@ -13,11 +13,13 @@ import contextlib
 import json
 import os
 import re
+import shutil
 import signal
 from pathlib import Path
 
 from harness import core
 from harness.gen import fstree, gipat
+from harness.props import c09_hist
 
 FUEL = 3000
 GI_CLASSES = ["F-C09-GI-A", "F-C09-GI-B", "F-C09-GI-C", "F-C09-GI-D", "F-C09-GI-E", "F-C09-GI-F", "F-C09-GI-G", "F-C09-GI-H", "F-C09-GI-I"]
@@ -558,6 +560,30 @@ def check_pathops(ctx, drv, env, rng):
                           f"{'is' if fstree.suffix_of(nm) in env.exts else 'is not'} in language.py's lists", {"name": nm})
 
 
+def repeat_lines(rng, pats):
+    """a pattern list in which lines occur more than once: a line said again at the end after its own negation
+    (`..., x, ..., !x, x`), a line said again after the rest of the list, the whole list twice with one line toggled"""
+    lines = [p for p in pats if p.strip() and not p.startswith("#")]
+    if not lines:
+        return list(pats)
+
+    def toggle(p):
+        return p[1:] if p.startswith("!") else "!" + p
+
+    out = list(pats)
+    for _ in range(rng.randint(1, 2)):
+        x = rng.choice(lines)
+        r = rng.random()
+        if r < 0.5:
+            out = out + [toggle(x), x]
+        elif r < 0.8:
+            i = rng.randrange(len(out) + 1)
+            out = out[:i] + [x] + out[i:] + [x]
+        else:
+            out = out + [toggle(x)] + out
+    return out
+
+
 # --------------------------------------------------------------------------
 def streams(ctx):
     n = ctx.n(380, 4500)
@@ -576,7 +602,18 @@ def run(ctx, drv):
                  "depth <= 3 over {a, b, ab, a.c, b.c}, read three ways (Lean reference / pathspec as CodeBase.__contains__ calls it / one batched "
                  "`git check-ignore`), and through the real `path in CodeBase(root, exclude_patterns=list)` on a 25-file tree. Non-trivial = "
                  "distinct (list, path) that git ignores.")
+    ctx.rule += (" History stream (harness/props/c09_hist.py): ONE CodeBase object per generated tree lives through a random history of "
+                 "membership questions (all spelling kinds, earlier spellings asked again), os.chdir, symbolic links re-pointed (to members, "
+                 "non-members, files outside, directories, nothing), regular files created / files and links removed, and enumerations that are "
+                 "complete, abandoned after the first element, left by break, nested inside themselves or run as two interleaved generators; "
+                 "after every step the answer is judged against the property evaluated on the file system and working directory of that "
+                 "moment (os.stat / realpath / extension lists / git check-ignore) and compared with the stateless Lean model (op codebase_gi). "
+                 "Non-trivial = distinct (case, step) at which a spelling asked before names something with a different specified answer, plus "
+                 "distinct (case, enumeration) of >= 2 members that follows an unfinished / nested enumeration or a change of the member set.")
     ctx.assumptions += [
+        "history stream: directories are never removed or replaced by links, so the code-base directories resolved when the object was made "
+        "stay canonical; the exclude-pattern list of an object is not edited after construction; the file system does not change WHILE an "
+        "enumeration is running (only between steps); code-base directories of a history case are never nested",
         "the pattern language is INSIDE the model: Spec/GitIgnore.lean (`GitIgnore.ignoredStr`), compared with `git check-ignore --no-index` "
         "(the arbiter) on every regular file and every real directory below every root of every generated tree and on the pattern-focused "
         "space; pathspec.GitIgnoreSpec (what the code calls) is compared with both; the model `CB.contains`/`CB.iter` runs with this matcher "
@@ -609,6 +646,9 @@ def run(ctx, drv):
             k += 1
             os.makedirs(base)
             rebuild(base, desc["entries"])
+            if "history" in desc:
+                c09_hist.eval_history(ctx, drv, env, base, desc, "corpus:" + f.name)
+                continue
             eval_case(ctx, drv, env, base, desc, "corpus:" + f.name)
         i = 0
         for stream, n in streams(ctx):
@@ -620,9 +660,22 @@ def run(ctx, drv):
                 desc = gen_case(ctx.rng, base, stream)
                 eval_case(ctx, drv, env, base, desc, f"{stream}#{i}")
                 i += 1
-                import shutil
-
                 shutil.rmtree(base, ignore_errors=True)
+        # pattern lists with REPEATED lines (lists assembled from the command line and the analysis file repeat entries):
+        # in gitignore semantics the last matching line decides, so `x, !x, x` is not `x, !x`
+        for j in range(ctx.n(60, 400)):
+            if len(ctx.violations) >= 20:
+                break
+            base = os.path.join(scr, f"p{j}")
+            os.makedirs(base)
+            desc = gen_case(ctx.rng, base, "main")
+            desc.update(stream="repeat", extra_patterns=[], patterns=repeat_lines(ctx.rng, desc["patterns"]))
+            ctx.count(key="repeat:pattern-list-with-repeated-lines")
+            eval_case(ctx, drv, env, base, desc, f"repeat#{j}")
+            shutil.rmtree(base, ignore_errors=True)
+        # one CodeBase object per tree, observed over a history (chdir, re-pointed links, files created / removed,
+        # abandoned / nested / repeated enumerations); drawn after the other streams, whose random sequence is unchanged
+        c09_hist.run_stream(ctx, drv, env, scr, ctx.n(110, 800))
         ctx.extra["git_check_ignore_calls"] = env.git.calls
 
 
@@ -669,10 +722,17 @@ def replay(ctx, drv, case):
     with core.Scratch() as d:
         scr = os.path.realpath(str(d))
         env = Env(cbmod, scr)
-        base = os.path.join(scr, "r")
+        base = os.path.join(scr, case.get("base_name", "r"))
         os.makedirs(base)
         rebuild(base, case["entries"])
         desc = dict(case)
+        if "history" in case:
+            res = c09_hist.eval_history(ctx, drv, env, base, desc, "replay")
+            if "step" in case:
+                res["reported_step"] = case["step"]
+            res["violations"] = [w for w, _ in ctx.violations]
+            res["known_findings"] = sorted(ctx.known_seen)
+            return json.loads(json.dumps(res, default=str).replace(base, "$BASE"))
         if "query" in case:
             desc["queries"] = [case["query"]]
         res = eval_case(ctx, drv, env, base, desc, "replay")
